@@ -41,6 +41,10 @@ assemble_method(am, ix=None) -> Lowered(code, items, tries, handlers, pos_off)
         pos_off     : {pos: code-unit offset of instruction pos}
         ix: a dexgen Index (None = all pool indices 0; sizes do not depend on index values)
 build_dex(methods) -> (dex bytes, [(method name, Lowered)])   one class Lvf/cfg/T; with static methods m0.. ()V
+        with_ix=True: -> (dex bytes, [...], dexgen Index of the file) so that another layout of a method can be
+        assembled with the same pool indices (assemble_method(relayout(am, ...), ix))
+relayout(am, nops, move) -> the same abstract method in another layout: `nops` nop instructions in front (every position
+        shifts by `nops`), move=True: the first payload changes place (end of the method <-> mid-method)
 features(am, lowered) -> set of shape labels (measured, for the evidence histogram and the NT rules)
 """
 from collections import namedtuple
@@ -302,7 +306,50 @@ def method_refs(am):
     return out
 
 
-def build_dex(methods, version='035'):
+def relayout(am, nops=2, move=False):
+    """The same abstract method (same instructions, same control flow, same tries) laid out differently: `nops` nop
+    instructions are put in front, so every instruction position shifts by `nops` (targets, tries, handlers and
+    payload anchors are shifted along; out-of-method targets stay what they are); with move=True the first payload
+    that can change place does: a mid-method payload goes to the end of the method, a payload at the end goes behind
+    the first instruction that never falls through and lies in no try (the placement rule of abstract_method)."""
+    def sh(t):
+        return t if is_out(t) else t + nops
+    ins = [['plain', {'ins': 'nop', 'fields': {}}] for _ in range(nops)]
+    for op in am['ins']:
+        op = list(op)
+        if op[0] == 'if':
+            op[4] = sh(op[4])
+        elif op[0] == 'ifz':
+            op[3] = sh(op[3])
+        elif op[0] == 'goto':
+            op[1] = sh(op[1])
+        ins.append(op)
+    payloads = []
+    for pl in am['payloads']:
+        pl = dict(pl)
+        if 'targets' in pl:
+            pl['targets'] = [sh(t) for t in pl['targets']]
+        if pl.get('after') is not None:
+            pl['after'] += nops
+        payloads.append(pl)
+    tries = [[s + nops, e + nops, h] for (s, e, h) in am['tries']]
+    handlers = [[[[t, p + nops] for (t, p) in pairs], None if call is None else call + nops]
+                for (pairs, call) in am['handlers']]
+    if move:
+        n = len(ins)
+        nofall = [i for i, op in enumerate(ins) if op[0] in ('return-void', 'return', 'throw', 'goto') and i < n - 1
+                  and not any(s <= i and i + 1 < e for (s, e, _h) in tries)]
+        for pl in payloads:
+            if pl.get('after') is not None:
+                pl['after'] = None
+                break
+            if nofall:
+                pl['after'] = nofall[0]
+                break
+    return {'ins': ins, 'payloads': payloads, 'tries': tries, 'handlers': handlers}
+
+
+def build_dex(methods, version='035', with_ix=False):
     """methods: list of abstract methods -> (dex bytes, [(name, Lowered)]) with pool indices resolved"""
     ms = []
     for k, am in enumerate(methods):
@@ -319,7 +366,8 @@ def build_dex(methods, version='035'):
                 vmethods=[G.Method('vm', 'V', (), 0x1, G.Code(1, 1, 0, bytes([0x0e, 0x00])))])
     df = G.DexFile([t, o], version=version)
     data = df.build()
-    return data, [('m%d' % k, assemble_method(am, df.ix)) for k, am in enumerate(methods)]
+    lows = [('m%d' % k, assemble_method(am, df.ix)) for k, am in enumerate(methods)]
+    return (data, lows, df.ix) if with_ix else (data, lows)
 
 
 # ---------------------------------------------------------------------------------------------------
